@@ -851,4 +851,45 @@ theorem failsExt_eq_nil {t : Table} {ms : MinSupp} {lmax : Nat} {exts : List (Li
   · rw [h7 hcnt]; simp
   · simp [hcnt]
 
+/-! ## the checker through the transposed table -/
+
+open Fca.Spec.C15 in
+theorem mem_meetingT {t : Table} (hwf : t.WF) (ms : MinSupp) (c : List Nat × List Nat) :
+    c ∈ meetingT t ms ↔ c ∈ meeting t ms := by
+  obtain ⟨A, B⟩ := c
+  simp only [meetingT, meeting, List.mem_filter, List.mem_map, Prod.mk.injEq, Prod.exists]
+  constructor
+  · rintro ⟨⟨B', A', hmem, rfl, rfl⟩, hm⟩
+    refine ⟨?_, hm⟩
+    rw [mem_allConcepts] at hmem ⊢
+    rw [← isConcept_transpose t hwf]; exact hmem
+  · rintro ⟨hmem, hm⟩
+    refine ⟨⟨B, A, ?_, rfl, rfl⟩, hm⟩
+    rw [mem_allConcepts] at hmem ⊢
+    rw [isConcept_transpose t hwf]; exact hmem
+
+open Fca.Spec.C15 in
+theorem meetingT_perm {t : Table} (hwf : t.WF) (ms : MinSupp) : (meetingT t ms).Perm (meeting t ms) := by
+  apply (List.perm_ext_iff_of_nodup _ _).mpr (mem_meetingT hwf ms)
+  · unfold meetingT
+    apply List.Nodup.sublist List.filter_sublist
+    apply nodup_map_on _ (allConcepts_nodup (transpose t))
+    intro x _ y _ h
+    simp only [Prod.mk.injEq] at h
+    exact Prod.ext h.2 h.1
+  · unfold meeting
+    exact List.Nodup.sublist List.filter_sublist (allConcepts_nodup t)
+
+open Fca.Spec.C15 in
+theorem failsExtT_eq {t : Table} (hwf : t.WF) (ms : MinSupp) (lmax : Nat) (exts : List (List Nat)) :
+    failsExtT t ms lmax exts = failsExt t ms lmax exts := by
+  have hlen := (meetingT_perm hwf ms).length_eq
+  have hall : ((meetingT t ms).all fun c => exts.contains c.1) = ((meeting t ms).all fun c => exts.contains c.1) := by
+    rw [Bool.eq_iff_iff, List.all_eq_true, List.all_eq_true]
+    constructor
+    · intro H c hc; exact H c ((mem_meetingT hwf ms c).mpr hc)
+    · intro H c hc; exact H c ((mem_meetingT hwf ms c).mp hc)
+  unfold failsExtT failsExt
+  simp only [hlen, hall]
+
 end Fca.SofiaApprox
